@@ -228,7 +228,10 @@ def check(spec):
     nm = tgt["name"]
     channels = set(ONE_PARAM + ["PauliError"])
     ops_t = [_build_op(o) for o in spec["ops"]]
-    ops_b = [_build_op(o) for o in spec["ops"] if o["op"] not in channels]
+    # the strength-0 channels are identities for the baseline. They used to be dropped from the default.qubit tape, which also dropped (or
+    # moved) their wires: on a device without wires the two tapes then had different wire sets / orders and qp.state() was compared between
+    # registers of different size or order (false alarm, default.mixed was right). The baseline now keeps an Identity on the channel's wires.
+    ops_b = [qp.Identity(wires=[specs.wire(w) for w in o["w"]]) if o["op"] in channels else _build_op(o) for o in spec["ops"]]
     mps = [specs.build_meas(m) for m in spec["meas"]]
     for m in mps:
         if type(m).__name__ == "MutualInfoMP" and (set(m.raw_wires[0]) & set(m.raw_wires[1]) or not len(m.raw_wires[1])):
@@ -259,7 +262,18 @@ def check(spec):
         feats["partial_prep"] = bool(first and first["op"] in ("BasisState", "StatePrep") and dev_wires and
                                      (len(first["w"]) < len(dev_wires) or list(dev_wires) != list(range(len(dev_wires)))))
         feats["tn_reduce_split"] = tgt.get("contract") in ("reduce-split", "split")
-        feats["mps_multirz"] = tgt["method"] == "mps" and any(_leaf(o) in ("MultiRZ", "PauliRot") and len(_leafspec(o)["w"]) >= 2 for o in spec["ops"])
+        # default.tensor applies MultiRZ / PauliRot on >= 2 wires as an MPO written straight into the quimb state (apply_operation_core_paulirot),
+        # for both methods; the class of the recorded defect is "such a gate reaches the device", i.e. it is in the circuit or in the device's
+        # own decomposition of it (FermionicSWAP, OrbitalRotation, ... decompose into MultiRZ). Computed from the input by preprocessing only.
+        dev_level = False
+        try:
+            (pt0,), _ = _mk_device(tgt, dev_wires).preprocess()[0]([tape_t])
+            dev_level = any(type(op).__name__ in ("MultiRZ", "PauliRot") and len(op.wires) >= 2 for op in pt0.operations)
+        except Exception:  # noqa: BLE001  (the execution below rejects or reports it)
+            pass
+        spec_level = any(_leaf(o) in ("MultiRZ", "PauliRot") and len(_leafspec(o)["w"]) >= 2 for o in spec["ops"])
+        feats["mps_multirz"] = tgt["method"] == "mps" and (spec_level or dev_level)
+        feats["tn_multirz"] = tgt["method"] == "tn" and (spec_level or dev_level)
     if not dev_wires and not len(tape_b.wires):
         raise Reject("no wires at all")
     if not dev_wires and any(m["mp"] == "state" for m in spec["meas"]) and set(tape_b.wires) != set(w for op in ops_b for w in op.wires):
@@ -283,7 +297,8 @@ def check(spec):
     except Exception as e:  # noqa: BLE001
         if "invalid for >2 sites" in str(e):
             raise Reject("quimb: contract option invalid for gates on more than 2 sites") from None
-        pre = "idle-tail:" if feats.get("idle_tail") else ("partial-prep:" if feats.get("partial_prep") else ("reduce-split:" if feats.get("tn_reduce_split") else ""))
+        pre = "idle-tail:" if feats.get("idle_tail") else ("partial-prep:" if feats.get("partial_prep") else ("reduce-split:" if feats.get("tn_reduce_split") else
+              ("mps-multirz:" if feats.get("mps_multirz") else "")))
         if nm == "reference.qubit" and feats.get("ref_labels_not_positions") and any(m["mp"] in ("vn_entropy", "mutual_info", "purity") for m in spec["meas"]):
             pre = "entropy-labels:"
         raise Viol("unexpected-exception", f"{nm} {tgt}: {type(e).__name__}: {str(e)[:200]} meas={spec['meas']} dev_wires={spec.get('dev_wires')} ops={spec['ops']}",
@@ -325,14 +340,19 @@ def check(spec):
             elif feats.get("ref_labels_not_positions") and m["mp"] in ("vn_entropy", "mutual_info", "purity"):
                 pre = "entropy-labels:"
         if nm == "default.tensor":
-            pre = "partial-prep:" if feats.get("partial_prep") else ("mps-multirz:" if feats.get("mps_multirz") and name in ("VarianceMP", "ExpectationMP") else "")
+            pre = "partial-prep:" if feats.get("partial_prep") else ("mps-multirz:" if feats.get("mps_multirz") and name in ("VarianceMP", "ExpectationMP") else
+                                                                      ("tn-multirz:" if feats.get("tn_multirz") and name in ("VarianceMP", "ExpectationMP") else ""))
         if nm == "reference.qubit" and batch == 1 and m.get("obs") and m["obs"]["op"] in ("s_prod", "sum", "lincomb") and not pre:
             pre = "batch1-sum:"
             f2["ref_batch1_sum"] = True
         t = tol
         if name == "StateMP" and nm in ("default.tensor", "reference.qubit") and dev_wires and g.shape == b.shape and not close(g, b, t):
             alt_order = _standard_order(tape_t)
-            for cand in (alt_order + [w for w in dev_wires if w not in alt_order], sorted(dev_wires, key=lambda w: (str(type(w)), w)), list(tape_t.wires)):
+            # default.tensor maps the circuit to standard wires by FIRST USE whenever a mapping is needed (e.g. an idle device wire in state(wires=
+            # device wires)), also when the gate wires are a permutation of 0..n-1: first-use order + unused device wires is a candidate too.
+            first_use = list(tape_t.wires)
+            for cand in (alt_order + [w for w in dev_wires if w not in alt_order], sorted(dev_wires, key=lambda w: (str(type(w)), w)), first_use,
+                         first_use + [w for w in dev_wires if w not in first_use]):
                 if len(cand) == len(dev_wires):
                     alt = sim.run_ops(tape_b.operations, cand) if batch is None else None
                     if alt is not None and alt.shape == g.shape and close(g, alt, t):
